@@ -481,6 +481,9 @@ func ruleC06(c *Ctx, r *Report) {
 
 	// ---------------------------------------------------------------- R3 one funnel
 	c06Funnel(c, r, an)
+
+	// ---------------------------------------------------------------- R4 only whole JSON objects yield records
+	parserStrictRule(c, r, "C06-R4")
 }
 
 // controlModRef is modRef for a control function (globals of the control package).
@@ -1428,4 +1431,99 @@ func barExcludesStdout(c *Ctx, an *Anchors, w, bar ssa.Value) (bool, string) {
 		}
 	}
 	return true, "the progress bar exists only under --outputFile != \"\" while os.Stdout is the writer only under --outputFile == \"\": progress text and records never share stdout"
+}
+
+// parserStrictRule (C06-R4 / C08-R6): a line is accepted only if it is exactly one
+// complete JSON value. (a) every token read of the parser has its error inspected and
+// a non-nil error ends parsing with an error - in particular the closing '}' / ']' of a
+// container, which is what distinguishes a complete document from one cut short by a
+// read error or an over-eager split; (b) after the top-level value the entry point
+// checks that the line holds nothing else before it reports success.
+func parserStrictRule(c *Ctx, r *Report, rule string) {
+	un := c.Fn("UnmarshalOrdered")
+	pv := c.Fn("parseValue")
+	if un == nil || pv == nil {
+		r.Undecided(rule, "parser", "-", "parser entry / recursive parser not found")
+		return
+	}
+	r.Floor(rule, 4, "token reads of the parser (4 today) + the trailing-data check")
+	for _, f := range []*ssa.Function{pv, un} {
+		for _, call := range callsIn(f, func(k string, _ *ssa.Call) bool { return k == "(*encoding/json.Decoder).Token" }) {
+			construct := fmt.Sprintf("%s:token-error-checked", f.Name())
+			if f == un {
+				continue // judged below as the trailing-data check
+			}
+			okh, detail := checkCallErrHandled(call, true, nil)
+			r.Check(okh, rule, construct, c.InstrPos(call),
+				"the token read is followed by an error test that ends parsing: "+detail,
+				"a token is read and its error is ignored ("+detail+"): a document cut short (read error, truncated gzip member) is completed silently and emitted as if it were whole")
+		}
+	}
+	// (b) trailing data
+	var pvCall *ssa.Call
+	for _, call := range callsIn(un, func(k string, cc *ssa.Call) bool { return cc.Call.StaticCallee() == pv }) {
+		pvCall = call
+	}
+	if pvCall == nil {
+		r.Undecided(rule, un.Name()+":parse-call", c.Pos(un.Pos()), "the entry point does not call the recursive parser")
+		return
+	}
+	isEndCheck := func(i ssa.Instruction) bool {
+		call, ok := i.(*ssa.Call)
+		if !ok {
+			return false
+		}
+		k := calleeKey(&call.Call)
+		if k != "(*encoding/json.Decoder).Token" && k != "(*encoding/json.Decoder).More" {
+			return false
+		}
+		// its result must steer a branch one of whose sides returns a non-nil error
+		steers := false
+		var visit func(v ssa.Value, depth int)
+		visit = func(v ssa.Value, depth int) {
+			if depth > 4 {
+				return
+			}
+			for _, u := range referrers(v) {
+				switch x := u.(type) {
+				case *ssa.If:
+					for _, s := range x.Block().Succs {
+						if len(failsLoudly(s, true, nil)) == 0 {
+							steers = true
+						}
+					}
+				case *ssa.Extract:
+					visit(x, depth+1)
+				case *ssa.BinOp:
+					visit(x, depth+1)
+				case *ssa.UnOp:
+					visit(x, depth+1)
+				}
+			}
+		}
+		visit(call, 0)
+		return steers
+	}
+	q := &pathQuery{
+		witness: isEndCheck,
+		isEnd: func(i ssa.Instruction) (string, bool) {
+			if ret, ok := i.(*ssa.Return); ok {
+				for _, res := range ret.Results {
+					if isErrorType(res.Type()) && !isNilConst(resolveLocal(res)) {
+						return "", false
+					}
+				}
+				return "success-return", true
+			}
+			return "", false
+		},
+	}
+	ends := q.run(pvCall.Block(), instrIndex(pvCall)+1, false)
+	var where []string
+	for _, e := range ends {
+		where = append(where, c.InstrPos(e.Instr))
+	}
+	r.Check(len(ends) == 0, rule, un.Name()+":nothing-after-the-object", c.InstrPos(pvCall),
+		"every success return of the entry point has checked (decoder Token/More with an error branch) that nothing follows the top-level value",
+		fmt.Sprintf("the entry point reports success at %v without checking what follows the first JSON value: a line that is not JSON (object followed by text or by a second object) still produces a record", where))
 }
